@@ -139,15 +139,15 @@ def r1(prog, rep):
     pairs_w = []
     for n in sorted(walk_own(w.node), key=lambda x: getattr(x, "lineno", 0)):
         if isinstance(n, ast.For) and isinstance(n.iter, ast.Call) and _dotted(n.iter.func) == "zip":
-            pairs_w.append(([T(mod, a) for a in n.iter.args], [T(mod, s) for s in n.body], T(mod, _parent_if(w.node, n).test)))
+            pairs_w.append(([T(mod, a) for a in n.iter.args], [T(mod, s) for s in n.body], "&".join(_all_guards(mod, w.node, n))))
     ok = pairs_w == [([K('data["rbdry"]'), K('data["zbdry"]')], [K("co.write(r)"), K("co.write(z)")], K("nbdry>0")), ([K('data["rlim"]'), K('data["zlim"]')], [K("co.write(r)"), K("co.write(z)")], K("nlim>0"))]
-    rep.ob("R1", "boundary then limiter points are written as interleaved (r, z) pairs", ok, w.site(), str(pairs_w), key="order/pairs-written")
+    rep.ob("R1", "boundary then limiter points are written as interleaved (r, z) pairs, each block under its own count test only", ok, w.site(), str(pairs_w), key="order/pairs-written")
     pairs_r = []
     for n in sorted(walk_own(r.node), key=lambda x: getattr(x, "lineno", 0)):
         if isinstance(n, ast.For) and T(mod, n.iter) in (K("range(nbdry)"), K("range(nlim)")):
-            pairs_r.append((T(mod, n.iter), [T(mod, s) for s in n.body], T(mod, _parent_if(r.node, n).test)))
+            pairs_r.append((T(mod, n.iter), [T(mod, s) for s in n.body], "&".join(_all_guards(mod, r.node, n))))
     ok = pairs_r == [(K("range(nbdry)"), [K('data["rbdry"][i]=next(values)'), K('data["zbdry"][i]=next(values)')], K("nbdry>0")), (K("range(nlim)"), [K('data["rlim"][i]=next(values)'), K('data["zlim"][i]=next(values)')], K("nlim>0"))]
-    rep.ob("R1", "boundary then limiter points are read as interleaved (r, z) pairs", ok, r.site(), str(pairs_r), key="order/pairs-read")
+    rep.ob("R1", "boundary then limiter points are read as interleaved (r, z) pairs, each block under its own count test only", ok, r.site(), str(pairs_r), key="order/pairs-read")
     counts_def = K("nbdry=0") in wsrc and K("nlim=0") in wsrc and K('if"rbdry"indata:nbdry=len(data["rbdry"])') in wsrc and K('if"rlim"indata:nlim=len(data["rlim"])') in wsrc
     rep.ob("R1", "counts are the lengths of the arrays written (0 when absent)", counts_def, w.site(), "", key="order/counts-def")
     # header integers
@@ -172,6 +172,33 @@ def _parent_if(root, node):
     if best is None:
         raise AnalysisError("enclosing if not found")
     return best
+
+
+def _all_guards(mod, root, node):
+    """every condition under which `node` executes: tests of all enclosing If arms (an else
+    arm is written not(...)), outermost first"""
+    out = []
+
+    def visit(n, stack):
+        if n is node:
+            out.extend(stack)
+            return True
+        if isinstance(n, ast.If):
+            t = T(mod, n.test)
+            for ch in n.body:
+                if visit(ch, stack + [t]):
+                    return True
+            for ch in n.orelse:
+                if visit(ch, stack + ["not(%s)" % t]):
+                    return True
+            return False
+        for ch in ast.iter_child_nodes(n):
+            if visit(ch, stack):
+                return True
+        return False
+
+    visit(root, [])
+    return out
 
 
 def r2(prog, rep):
